@@ -91,6 +91,9 @@ def gen_db(rng):
         if not ds_names:
             break
         members = rng.sample(ds_names, rng.randrange(1, min(3, len(ds_names)) + 1))
+        if rng.random() < 0.12:
+            # an alias that lists one member twice overlaps itself on every id
+            members.insert(rng.randrange(len(members) + 1), rng.choice(members))
         p = rng.randrange(nparts)
         parts[p].setdefault('alias', {})['a%d' % a] = members
     if rng.random() < 0.4:
